@@ -282,7 +282,7 @@ def _on_alarm(signum, frame):
     raise CallTimeout()
 
 
-def invoke(chk, obj, m, data, replay, kwargs=None, expect_exc=False, X=None, y="auto"):
+def invoke(chk, obj, m, data, replay, kwargs=None, X=None, y="auto"):
     """Call obj.m(X, y, **kwargs) with instrumentation; check the caller's arrays and the hyper-parameters around it."""
     o = Outcome()
     Xin = data.X if X is None else X
@@ -551,7 +551,7 @@ def stream_trace(chk, i, rng):
     chk.dist["trace:" + name] += 1
     chk.dist["trace-events"] += nev
     chk.count(("trace", name, tuple(sorted((k, repr(v)) for k, v in cfg.items() if k in ("verbose", "batch_size", "solver", "dynamic", "groups", "gemini", "kernel", "metric", "base_kernel", "feature_mask", "max_features")))))
-    chk.sample({"stream": "trace", "estimator": name, "events": nev})
+    chk.sample({"stream": "trace", "estimator": name, "events": nev}, limit=2)
 
 
 # ------------------------------------------------------------------------------------------ stream: history
@@ -618,7 +618,8 @@ def stream_history(chk, i, rng, decorated=False):
     rnd = i // len(names)
     d = int(rng.integers(3, 5))
     nA, nB = int(rng.integers(8, 15)), int(rng.integers(8, 15))
-    # (the sparse models' fit reads X.shape before validation and rejects a plain list: that is C04's matter, not used here)
+    # (path() reads X.shape before any validation and so rejects a plain list with AttributeError: whether it should is
+    # C04/C07's matter; a list as final dataset would only make both paths raise alike, so sparse models get arrays)
     kinds = ["f8", "f8", "f8", "fortran", "int"] + ([] if name in impl.SPARSE else ["list"])
     A = Data(rng, nA, d, kind=str(rng.choice(kinds)))
     dB = d if name == "Douglas" or rng.random() < 0.5 else d + 1
@@ -723,7 +724,8 @@ def stream_history(chk, i, rng, decorated=False):
     chk.dist[f"len={min(len(plan), 9)}{'+' if len(plan) > 9 else ''}"] += 1
     nfit = sum(1 for p in plan if p.startswith(("fit", "path")))
     chk.count((name, tuple(plan), decorated) if nfit >= 1 else None)
-    chk.sample({"stream": "history", "estimator": name, "plan": plan, "identical": ok})
+    if len(plan) >= 4:
+        chk.sample({"stream": "mlcl" if decorated else "history", "estimator": name, "plan": plan, "identical_to_fresh": ok}, limit=5)
 
 
 def stream_mlcl(chk, i, rng):
